@@ -559,3 +559,10 @@ mod test {
         */
     }
 }
+
+/// Verification hooks for the `sort=` machinery (feature `verif-hooks`,
+/// add-only); a child module because `sort_results` and `cmp_json_values`
+/// are private to this file.
+#[cfg(feature = "verif-hooks")]
+#[path = "verif_hooks_vribquery.rs"]
+pub mod verif_hooks_vribquery;
